@@ -314,6 +314,9 @@ func encodeForWire(v ap.Item, codec string) (msg []byte) {
 	return msg
 }
 
+// curKnobs: the draws of gen.WithHooks for the run in progress.
+var curKnobs []uint32
+
 // guarded runs fn under the panic oracle; stage names what was running.
 func guarded(c *core.Ctx, e *entry, stage string, input []byte, fn func()) (ok bool) {
 	return guarded2(c, e, stage, input, fn, false)
@@ -353,7 +356,7 @@ func guarded2(c *core.Ctx, e *entry, stage string, input []byte, fn func(), hang
 				frame, kind := libFrame(r)
 				c.Fail("panic", fmt.Sprintf("C04/panic/%s/%s/%s", stage, frame, kind), "%s at entry point %s panicked on %d bytes %q: %v", stage, e.name, len(input), clip(input, 80), r)
 			}
-			c.PlanOut = &core.Plan{Property: "C04", Tier: c.Tier, Mode: "direct", Entry: e.name, Input: append([]byte{}, input...)}
+			c.PlanOut = &core.Plan{Property: "C04", Tier: c.Tier, Mode: "direct", Entry: e.name, Input: append([]byte{}, input...), Knobs: curKnobs}
 		}
 	}()
 	fn()
@@ -403,7 +406,7 @@ func readAndExercise(c *core.Ctx, e *entry, input []byte, cleanSteps int64) (val
 	}
 	if grown > allocBound+allocPerByte*uint64(len(input)) {
 		c.Fail("alloc", "C04/alloc/decode/"+e.codec, "decode of %d bytes at %s allocated %d MiB", len(input), e.name, grown>>20)
-		c.PlanOut = &core.Plan{Property: "C04", Tier: c.Tier, Mode: "direct", Entry: e.name, Input: append([]byte{}, input...)}
+		c.PlanOut = &core.Plan{Property: "C04", Tier: c.Tier, Mode: "direct", Entry: e.name, Input: append([]byte{}, input...), Knobs: curKnobs}
 		return nil, nil, steps
 	}
 	if grown > suspiciousAlloc {
@@ -414,7 +417,7 @@ func readAndExercise(c *core.Ctx, e *entry, input []byte, cleanSteps int64) (val
 		c.Probe("decode_allocated_over_16MiB")
 		if kept := retainedBy(e, input); kept > retainedBound+retainedPerByte*uint64(len(input)) {
 			c.Fail("alloc", "C04/alloc/retained/"+e.codec, "the value decoded from %d bytes at %s keeps %d MiB alive (allocation sized by a number read from the input, not by the input)", len(input), e.name, kept>>20)
-			c.PlanOut = &core.Plan{Property: "C04", Tier: c.Tier, Mode: "direct", Entry: e.name, Input: append([]byte{}, input...)}
+			c.PlanOut = &core.Plan{Property: "C04", Tier: c.Tier, Mode: "direct", Entry: e.name, Input: append([]byte{}, input...), Knobs: curKnobs}
 			return nil, nil, steps
 		}
 	}
@@ -458,7 +461,7 @@ func checkFormatted(c *core.Ctx, e *entry, input []byte, out string) bool {
 		method = "String"
 	}
 	c.Fail("panic", fmt.Sprintf("C04/panic/followup:Format/recovered-by-fmt/%s/%s", method, kind), "formatting the value decoded at %s from %d bytes %q panicked inside a %s method (recovered and printed by package fmt): %s", e.name, len(input), clip(input, 80), method, msg)
-	c.PlanOut = &core.Plan{Property: "C04", Tier: c.Tier, Mode: "direct", Entry: e.name, Input: append([]byte{}, input...)}
+	c.PlanOut = &core.Plan{Property: "C04", Tier: c.Tier, Mode: "direct", Entry: e.name, Input: append([]byte{}, input...), Knobs: curKnobs}
 	return false
 }
 
@@ -717,6 +720,9 @@ func run(c *core.Ctx) {
 	t := c.Tape
 	restore, hooksOn := gen.WithHooks(t)
 	defer restore()
+	// (what configured the process is part of any explicit-bytes replay of this run)
+	curKnobs = append([]uint32(nil), t.Recorded()...)
+	defer func() { curKnobs = nil }()
 	if hooksOn {
 		c.Probe("extension_hooks_installed")
 	}
@@ -1011,6 +1017,12 @@ func direct(c *core.Ctx) {
 	if e == nil {
 		c.Fail("harness", "C04/harness/unknown-entry", "entry point %q does not exist in this tree", c.Entry)
 		return
+	}
+	if len(c.Knobs) > 0 {
+		restore, _ := gen.WithHooks(core.ReplayTape(c.Knobs))
+		defer restore()
+		curKnobs = c.Knobs
+		defer func() { curKnobs = nil }()
 	}
 	c.Logf("direct: %d bytes %q at %s", len(c.Input), clip(c.Input, 120), e.name)
 	readAndExercise(c, e, c.Input, 0)
